@@ -3,7 +3,7 @@
 (the secrecy monitor never fires) for every shape.  Run from /verif/lean; the output is committed and re-checked by Lean on every run."""
 import re
 SRC = [('C02Gen','encrypt_source_is_spec'),('C01Gen','decrypt_source_is_model'),('C01Gen','decrypt_short_source'),('C09Gen','siv_encrypt_source_is_spec'),('C08Gen','siv_decrypt_source_is_model'),
-       ('C08Gen','siv_decrypt_short_source'),('C10Gen','hash_source_is_spec'),('C12Gen','hmac_source_is_rfc2104'),('C14Gen','pbkdf2_source_is_rfc8018'),
+       ('C08Gen','siv_decrypt_short_source'),('C10Gen','hash_source_is_spec'),('C12Gen','hmac_source_is_rfc2104'),('StreamGen','hash_init_source'),('StreamGen','hash_reinit_source'),('StreamGen','hash_update_source'),('StreamGen','hash_finalize_source'),('StreamGen','hmac_init_source'),('StreamGen','hmac_reinit_source'),('StreamGen','hmac_update_source'),('StreamGen','hmac_finalize_source'),('C13Gen','hkdf_source_is_rfc5869'),('C13Gen','hkdf_source_cap'),('C13Gen','expand_source_is_model'),('C13Gen','extract_source_is_model'),('C14Gen','pbkdf2_source_is_rfc8018'),
        ('C15Gen','feed_source_is_model'),('C15Gen','set_limit_source_is_model'),('C15Gen','free_source_is_model'),('C15Gen','reseed_source_is_model'),('C15Gen','generate_source_is_model'),
        ('C15Gen','generate_source_system'),('C17Gen','init_user_source_is_model'),('C17Gen','init_source'),('C17Gen','init_user_null_source')]
 out=[]
@@ -32,10 +32,10 @@ L=['''/-
   length, every count and round number, every placement of the buffers, every labelling of the data bytes — all of them may be secret), the run COMPLETES,
   i.e. the monitor never fires.  Together with `TJ.Props.C07.noninterference` (equal leakage traces for inputs that agree on everything public) this is the
   constant-time statement without the restriction to the shapes the check executes, for these entry points and all their callees:
-    tinyjambu_{128,192,256}_aead_encrypt / _decrypt, tinyjambu_{128,192,256}_siv_encrypt / _decrypt, tinyjambu_hash, tinyjambu_hmac, tinyjambu_pbkdf2,
+    tinyjambu_{128,192,256}_aead_encrypt / _decrypt, tinyjambu_{128,192,256}_siv_encrypt / _decrypt, tinyjambu_hash, tinyjambu_hmac, tinyjambu_hkdf / _hkdf_extract / _hkdf_expand, tinyjambu_pbkdf2,
     tinyjambu_prng_init_user / _reseed / _generate / _feed / _set_reseed_limit / _free (user entropy callback), tinyjambu_prng_init, tinyjambu_prng_init_user with a NULL
     callback and tinyjambu_prng_generate with the system source (`tinyjambu_prng_system`; the OS shim below it is a primitive of the semantics).
-  Not covered by a theorem (the check still executes a family of shapes for them): the HKDF functions, the streaming hash/HMAC entry points as API calls.
+  The streaming entry points tinyjambu_hash_init / _reinit / _update / _finalize and tinyjambu_hmac_init / _reinit / _update / _finalize are covered as top-level calls too (TJ.Props.StreamGen).
   (generated once by a script from the statements of those theorems; checked by Lean like everything else)
 -/
 import TJ.Props.C02Gen
@@ -44,6 +44,8 @@ import TJ.Props.C09Gen
 import TJ.Props.C08Gen
 import TJ.Props.C10Gen
 import TJ.Props.C12Gen
+import TJ.Props.StreamGen
+import TJ.Props.C13Gen
 import TJ.Props.C14Gen
 import TJ.Props.C15Gen
 import TJ.Props.C17Gen
